@@ -536,7 +536,7 @@ def indefinite_orthogonalize(form, matrices):
     for i in range(n):
         row = matrices[..., i, :]
         for j in range(i):
-            row -= projection(row, result[..., j, :], form)
+            row = row - projection(row, result[..., j, :], form)
         result[..., i, :] = row
 
     return normalize(result, form)
